@@ -6,7 +6,7 @@ multisets of declarations (token sequences)."""
 import os
 import random
 
-from .. import common, compound, proj, tsparse
+from .. import rustgen as rg, common, compound, proj, tsparse
 from ..common import Verdict
 
 TS = ("types.ts", "commands.ts", "events.ts", "index.ts")
@@ -69,6 +69,14 @@ def run_case(a):
     drv = a[6] if len(a) > 6 else None
     rnd = random.Random(seed)
     files = compound.gen(rnd, idx)
+    dup_names = idx % 5 == 3
+    if dup_names:
+        # one type name defined in several files (different modules of one crate) with different bodies: whichever definition the
+        # tool settles on, it has to be the same one on every run
+        tn = [it.name for its in files.values() for it in its if it.kind == "type"]
+        for k, nm in enumerate(tn[:2]):
+            for j, path in enumerate(["billing/model_%d.rs" % k, "shipping/model_%d.rs" % k, "a_first_%d.rs" % k]):
+                files.setdefault(path, []).append(compound.Item("type", nm, rg.struct_src(nm, [("dup_%d_%d" % (k, j), "i32"), ("only_in_%d" % j, "String")])))
     root = common.scratch("c13")
     viol = []
     stats = {"runs": 0, "distinct_bytes": set(), "distinct_orders": set()}
@@ -178,7 +186,7 @@ def run_case(a):
             except OSError:
                 pass
         # (3) semantics-preserving transformations
-        for tno in range(ntrans):
+        for tno in range(0 if dup_names else ntrans):       # with duplicate names, which file holds a definition is part of the input
             tf = compound.TRANSFORMS[(idx + tno) % len(compound.TRANSFORMS)]
             f2, kind = tf(rnd, files)
             o, err = gen_out(cli, root, compound.render(f2), mode, hs0, "t%d" % tno, src_name="src_t%d" % tno)
